@@ -76,7 +76,7 @@ check("C01", "served content hashes to its digest", "exploration",
       "A second state machine drives the upload object of both stores directly (Write/Verify/ChangeAlgorithm in any order, then Close or Cancel): the name a blob is committed under must be the digest of all bytes written.",
       "Trusted: crypto/sha256, crypto/sha512 of the Go standard library as the reference hash; in-process transport (httptest) instead of a socket.",
       "DESIGN.md §3 C01",
-      [R("^TestC01$", 6000, 120000, steps=25), R("^TestC01Store$", 16000, 400000, steps=20)])
+      [R("^TestC01$", 6000, 300000, steps=25), R("^TestC01Store$", 16000, 1000000, steps=20)])
 
 check("C02", "acknowledged pushes read back identically", "exploration",
       "rapid state machine vs reference model (bytes, length, digest, media type, range slices) over push/delete/collect/restart histories",
@@ -85,7 +85,7 @@ check("C02", "acknowledged pushes read back identically", "exploration",
       "Trusted: the naive map model; collections run under a retain-everything policy here (policy-dependent retention is C05's oracle); by-digest visibility of manifests "
       "affected by open finding C02/orphaned-child is not asserted (counted in evidence).",
       "DESIGN.md §3 C02",
-      [R("^TestC02$", 4000, 60000, steps=40)])
+      [R("^TestC02$", 4000, 180000, steps=40)])
 
 check("C03", "tags are a last-writer-wins map; listing and paging exact", "exploration",
       "rapid state machine vs model map tag->digest; Link chains followed to the end; n/last boundary values",
@@ -103,7 +103,7 @@ check("C04", "only complete, well-formed manifests accepted; refusals change not
       "Trusted: the acceptance predicate c04Predict (narrow reading of 'consistent with the body': header vs non-empty mediaType field); JSON null bodies and the "
       "detection path (no Content-Type) are only checked in the 201 => valid direction.",
       "DESIGN.md §3 C04",
-      [R("^TestC04$", 3000, 60000, steps=30)])
+      [R("^TestC04$", 3000, 150000, steps=30)])
 
 check("C07", "referrers responses list exactly the manifests with that subject", "exploration",
       "rapid state machine vs model set {m present : subject(m)=S}; field-exact descriptors; filter header; Link chains; page limits; restart",
@@ -111,7 +111,7 @@ check("C07", "referrers responses list exactly the manifests with that subject",
       "limits from one descriptor to unlimited; every listing (plain, filtered, repeated so that the page cache answers) is followed along its Link chain and compared field by field.",
       "Trusted: the model; page-size arithmetic re-computed with encoding/json over the same field set. Collections run under a retain-everything policy (GC effects on listings are C05/C06).",
       "DESIGN.md §3 C07",
-      [R("^TestC07$", 20000, 150000, steps=30)])
+      [R("^TestC07$", 20000, 900000, steps=30)])
 
 check("C16", "repositories isolated; storage access stays inside the root", "exploration",
       "rapid state machine on a vfs-instrumented build: per-repository models + file-system path log + sentinel tree outside the root",
@@ -121,7 +121,7 @@ check("C16", "repositories isolated; storage access stays inside the root", "exp
       "Trusted: the check-time rewrite of os.* calls in internal/store to the logging shim (the driver refuses to run if an os.* call remains un-routed); an independent router "
       "(path.Clean + OCI name grammar) decides which repository a request addresses.",
       "DESIGN.md §3 C16",
-      [R("^TestC16$", 2400, 40000, steps=30)], variant="vfs")
+      [R("^TestC16$", 2400, 120000, steps=30)], variant="vfs")
 
 check("C10", "the directory is a valid OCI layout equal to the API state", "exploration",
       "rapid state machine; oracle = OCI-layout validator after every step + index.json/API/model equality + dir-vs-mem, restart and mem-over-dir differentials",
@@ -141,7 +141,7 @@ check("C08", "upload sessions sequential, isolated, no residue", "exploration",
       "Trusted: testing/synctest of go1.26.8 (the check is built with that toolchain; file mtimes stay real inside a bubble, which this check does not depend on); the session model; "
       "eviction choice is not specified: a session may only be reported unknown after the bound was exceeded while it was open or after it was idle for the grace period.",
       "DESIGN.md §3 C08",
-      [R("^TestC08$", 16000, 200000, steps=40)], variant="go126")
+      [R("^TestC08$", 16000, 1000000, steps=40)], variant="go126")
 
 check("C20", "the bounded cache never drops an entry without its cleanup", "exploration",
       "rapid state machine over cache.Cache inside a testing/synctest bubble; oracle = ledger of callback invocations vs membership (incarnations), LRU and age rules on the virtual clock",
@@ -150,7 +150,7 @@ check("C20", "the bounded cache never drops an entry without its cleanup", "expl
       "every disappearance must be covered by a successful cleanup of that very value.",
       "Trusted: testing/synctest of go1.26.8; the ledger oracle; overwriting a live key by Set is an update (exempt), as documented for PruneFn.",
       "DESIGN.md §3 C20",
-      [R("^TestC20$", 96000, 1000000, steps=40)], variant="go126")
+      [R("^TestC20$", 96000, 6000000, steps=40)], variant="go126")
 
 check("C17", "fallback-tag referrers converted without loss, repeatably", "exploration",
       "rapid generator of legacy fallback-tag layouts; oracle = expected grouping by actual subject (field-exact) + repeat/restart differential + crash-point enumeration of the conversion through the vfs shim + termination watchdog",
@@ -160,7 +160,7 @@ check("C17", "fallback-tag referrers converted without loss, repeatably", "explo
       "Trusted: the layout generator's expectation (union of listed descriptors whose manifest exists and names the subject, recomputed from the manifests); process-crash model of the vfs shim "
       "(no loss of un-synced pages); pre-existing converted responses are generated accurate only.",
       "DESIGN.md §3 C17",
-      [R("^TestC17$", 2000, 8000, shards=(8, 16), timeout=(1200, 6000))], variant="vfs")
+      [R("^TestC17$", 2000, 32000, shards=(8, 16), timeout=(1200, 6000))], variant="vfs")
 
 check("C14", "read-only stores and disabled APIs change nothing", "exploration",
       "rapid generator of pre-built roots (healthy/legacy/corrupt) x switch combinations x request mixes; oracle = byte/mtime-exact snapshot of the root and its parent + status class per switch + read sweep",
@@ -170,7 +170,7 @@ check("C14", "read-only stores and disabled APIs change nothing", "exploration",
       "Trusted: os.Stat mtimes with nanosecond resolution on the scratch file system; read expectations only for healthy and adoptable roots (open finding C14/ro-legacy-regeneration; corrupt "
       "roots answer depending on the store's 1 s re-check window).",
       "DESIGN.md §3 C14",
-      [R("^TestC14$", 4800, 50000)])
+      [R("^TestC14$", 4800, 250000)])
 
 check("C05", "GC never removes retained or recent content", "exploration",
       "rapid state machine building object graphs with aliasing/nesting/referrers + ageing + collections at any step under every policy; oracle = must-keep closure computed on the model from the statement, pull walk of every tag",
@@ -182,7 +182,7 @@ check("C05", "GC never removes retained or recent content", "exploration",
       "Trusted: the closure in c05_test.go (two documented weakenings from Appendix B of DESIGN.md; root status of child manifests is not asserted while finding C05/orphaned-child is open - counted "
       "in evidence); ageing through the add-only hook VerifAgeBlobs (Chtimes / in-memory metadata).",
       "DESIGN.md §3 C05",
-      [R("^TestC05$", 12000, 120000, steps=35), R("^TestC05Concurrent$", 1600, 20000, shards=(4, 16)), R("^TestC05Interleave$", 96, 1200, shards=(8, 16), variant="vfs")])
+      [R("^TestC05$", 12000, 400000, steps=35), R("^TestC05Concurrent$", 1600, 20000, shards=(4, 16)), R("^TestC05Interleave$", 96, 1200, shards=(8, 16), variant="vfs")])
 
 check("C06", "collection removes exactly the garbage, converges, is not starved", "exploration",
       "E2 object graphs + multi-repository mixes (ghost/empty/removed/corrupt) aged beyond grace; oracle = reachability over the post-pass index (no garbage, no dangling entry), policy rules where unambiguous, second pass is a no-op, per healthy repository",
@@ -193,7 +193,7 @@ check("C06", "collection removes exactly the garbage, converges, is not starved"
       "Trusted: reachability computed by the harness over blobs read back through the API and the index obtained through the add-only hook VerifIndexJSON; ambiguous policy combinations (Untagged off + "
       "ReferrersDangling on for never-existing subjects) and empty responses are not asserted.",
       "DESIGN.md §3 C06",
-      [R("^TestC06$", 6000, 100000, steps=30), R("^TestC06Monotone$", 3200, 60000, steps=30)])
+      [R("^TestC06$", 6000, 300000, steps=30), R("^TestC06Monotone$", 3200, 100000, steps=30)])
 
 check("C15", "any request gets a well-formed answer", "exploration",
       "grammar-based request generator in rapid sequences over prepared states + the same generator under Go's native coverage-guided fuzzer (thorough); oracle = no panic, no 5xx on healthy storage, OCI error schema + code table + condition-specific codes, independent router",
